@@ -28,7 +28,7 @@ TA = ["<p a=", "<svg xlink:href=", "<input disabled=", "x", " ", '"', "'", "=", 
       "disabled", " b=", "&quot;", "&#39;"]
 TT = ["x", "<", ">", "&amp;", "&lt;", '"', "'", "-", "<!--", "-->", "<title>", "</title>", "<style>", "</style>", "<svg>", "</svg>",
       "<script>", "</script>", "<![CDATA[", "]]>", "<noscript>", "</noscript>", "<plaintext>", "<p>", "é", "\n", "<!-", "<!DOCTYPE a PUBLIC 'b\"c' \"d'e\">", "</", "&lt;b&gt;", "&amp;lt;", "&amp;amp;", "&amp;#65;", "<textarea>",
-      "</textarea>", "&lt;/textarea&gt;", "&lt;/title&gt;"]
+      "</textarea>", "&lt;/textarea&gt;", "&lt;/title&gt;", "&lt;?", "&lt;/x"]
 tw.THEMES.setdefault("TA", TA)
 tw.THEMES.setdefault("TT", TT)
 
@@ -230,7 +230,7 @@ def step(ctx, word):
 # output encoding that lacks it, what FOLLOWS it decides how the reference is read back)
 VAL = ["a", " ", '"', "'", "=", "<", ">", "`", "&", "é", "\n", "\t", "/", "É", ";",
        "&amp;", "&#65;", "&lt"]       # values that LOOK like character references (must be written so that they are not decoded)
-TXT = ["x", "<", ">", "&", '"', "'", "-", "é", "\n", "]", "/", "!", "&lt;", "&amp;", "&#65;", "&copy", "É", ";"]
+TXT = ["x", "<", ">", "&", '"', "'", "-", "é", "\n", "]", "/", "!", "&lt;", "&amp;", "&#65;", "&copy", "É", ";", "?"]       # ("<?" and "<!" open bogus comments, "</" + letter an end tag)
 TEXT_CTX = [("p", HTML_NS), ("title", HTML_NS), ("textarea", HTML_NS), ("style", HTML_NS), ("script", HTML_NS), ("xmp", HTML_NS),
             ("svg", SVG_NS), ("style", SVG_NS), ("title", SVG_NS), ("mi", MATHML_NS), ("pre", HTML_NS)]
 
